@@ -94,7 +94,14 @@ def draw_case(rng, name, tier="quick", mixed_cls=False):
     if name == "sorted":
         return Case(name, {"key": rng.choice(KEYS), "reverse": rng.random() < 0.5}, [L(mixed=mixed_cls)])
     if name == "cycle":
-        return Case(name, {"passes": 2}, [L()])
+        items = L()
+        n = len(items)
+        if n == 0:
+            return Case(name, {"passes": 3}, [items])
+        # an infinite iterator: the consumer always closes it, at the t-th yield
+        t = rng.randrange(1, 2 * n + 3)
+        k = 2 * t - 1 if t <= n else n + t + 1   # after the first pass: end poll and aclose are uses too
+        return Case(name, {"passes": 4}, [items], plan=(k, ("GenExit",)))
     if name == "accumulate":
         ini = (Obj(ids.next(), rng.randrange(3)),) if rng.random() < 0.4 else None
         return Case(name, {"f": rng.choice([None] + BIN), "initial": ini}, [L()])
